@@ -363,7 +363,19 @@ func importBindingCase(ctx *core.Ctx, idx int, res *core.Result, g *gen.G) {
 			fmt.Fprintf(&body, "\t%s.Warn(%s)\n", others[r.Intn(len(others))], a)
 		}
 	}
-	src := "package p\n\nimport (\n\t" + spec + "\n\tzap \"example.com/zap\"\n)\n\nfunc f() {\n" + body.String() + "}\n"
+	// the same path may be imported once more under another name, before or behind: whichever of the two the code of
+	// the patch matches with is what the metavariable stands for
+	twice := ""
+	specs := "\t" + spec + "\n"
+	switch r.Intn(4) {
+	case 0:
+		specs, twice = "\tlegacyalias \"example.com/legacy/log\"\n"+specs, "second-import-in-front"
+		fmt.Fprintf(&body, "\tlegacyalias.Setup()\n")
+	case 1:
+		specs, twice = specs+"\tlegacyalias \"example.com/legacy/log\"\n", "second-import-behind"
+		fmt.Fprintf(&body, "\tlegacyalias.Setup()\n")
+	}
+	src := "package p\n\nimport (\n" + specs + "\tzap \"example.com/zap\"\n)\n\nfunc f() {\n" + body.String() + "}\n"
 	runs := applyAPI(patch, []string{src})
 	res.Evals++
 	run := runs[0]
@@ -384,11 +396,11 @@ func importBindingCase(ctx *core.Ctx, idx int, res *core.Result, g *gen.G) {
 		}
 	}
 	if got != want {
-		res.Violate("C02/missed-instance", fmt.Sprintf("%d of %d calls through the imported name %q were rewritten", got, want, qual), rep)
+		res.Violate("C02/missed-instance", fmt.Sprintf("%d of %d calls through the imported name %q were rewritten %s", got, want, qual, twice), rep)
 		return
 	}
 	if want > 0 {
-		res.Sig("import-bound-metavariable", name, want, strings.Contains(patch, "+import"))
+		res.Sig("import-bound-metavariable", name, want, strings.Contains(patch, "+import"), twice)
 	}
 }
 
